@@ -40,6 +40,7 @@ def scenario(run, rng, pv, idx):
                 cb.login.SetCompressionPacket, cb.login.LoginSuccessPacket,
                 cb.play.TimeUpdatePacket, cb.play.DisconnectPacket,
                 sb.play.ChatPacket]          # the last never matches incoming
+    in_types += [cb.play.PlayerListItemPacket, cb.play.ExplosionPacket]
     combat = pv >= 755
     if combat:
         # from 21w07a on the combat event is three packets, each a subclass
@@ -99,6 +100,10 @@ def scenario(run, rng, pv, idx):
     known = {k.get_id(ctx) for k in cb.play.get_packets(ctx)}
     unknown_id = next(i for i in (0x7E, 0x7D, 0x6B, 0x69) if i not in known)
     play_hist = ['ka'] * n_ka + ['chat'] * n_chat_in + ['unknown'] * n_unknown
+    # known packets whose collections are empty (a player list update with no
+    # actions, an explosion that destroys no blocks)
+    play_hist += ['plist-empty'] * rng.randrange(0, 2) + \
+        ['explosion-empty'] * rng.randrange(0, 2)
     if combat:
         play_hist += ['combat-end'] * rng.randrange(0, 3) + \
             ['combat-enter'] * rng.randrange(0, 2)
@@ -108,6 +113,7 @@ def scenario(run, rng, pv, idx):
     # second history follows; sentinel frames (an unknown id of their own) mark
     # the end of each phase so that the phase of every packet is unambiguous
     late = rng.random() < 0.6
+    leaver = rng.random() < 0.3
     sentinel_id = next(i for i in (0x7B, 0x7A, 0x6A, 0x68)
                        if i not in known and i != unknown_id)
     n_ka2 = rng.randrange(1, 4)
@@ -115,6 +121,17 @@ def scenario(run, rng, pv, idx):
         ['unknown'] * rng.randrange(0, 2)
     rng.shuffle(play_hist2)
     incoming_expected = []       # (class name, key) in arrival order
+
+    def lib_frame(K, **fields):
+        # (id, payload) as written by the library's own class: what is judged
+        # is the dispatch of the packet, not its layout
+        from minecraft.networking.packets import PacketBuffer
+        from ..ref import framing as rframing
+        buf = PacketBuffer()
+        K(context=ctx, **fields).write(buf)
+        fr = rframing.parse_stream(buf.get_writable(), compressed=False,
+                                   threshold=None)[0][0]
+        return fr[0], bytes(fr[1])
 
     def handler(io):
         hs = scripts.read_handshake(io)
@@ -143,6 +160,16 @@ def scenario(run, rng, pv, idx):
                 if kind == 'ka':
                     k += 1
                     cid, cp = codec.encode('cb_keep_alive', {'id': base + k})
+                elif kind == 'plist-empty':
+                    cid, cp = lib_frame(cb.play.PlayerListItemPacket,
+                                        action_type=cb.play.
+                                        PlayerListItemPacket.AddPlayerAction,
+                                        actions=[])
+                elif kind == 'explosion-empty':
+                    cid, cp = lib_frame(
+                        cb.play.ExplosionPacket, x=1.0, y=2.0, z=3.0,
+                        radius=4.0, records=[], player_motion_x=0.0,
+                        player_motion_y=0.0, player_motion_z=0.0)
                 elif kind == 'combat-end':
                     from ..ref import wiretypes as wt, varint as vi
                     cid, cp = 0x33, vi.encode(5) + wt.int_be(7, 4, True)
@@ -163,8 +190,15 @@ def scenario(run, rng, pv, idx):
             io.send_frame(sentinel_id, b'S2')
         # let the client talk, then end the conversation
         state['go'].wait(10.0)
-        did, dp = codec.encode('play_disconnect', {'reason': '"end"'})
-        io.send_frame(did, dp)
+        if state.get('leaver_active'):
+            # the *client* ends this conversation: an early listener calls
+            # disconnect() when it sees this keep-alive - without raising
+            # IgnorePacket, so the later stages still run for the packet
+            cid, cp = codec.encode('cb_keep_alive', {'id': 9999})
+            io.send_frame(cid, cp)
+        else:
+            did, dp = codec.encode('play_disconnect', {'reason': '"end"'})
+            io.send_frame(did, dp)
         io.half_close()
         for fr in io.drain(6.0):
             state['frames'].append(('any', fr))
@@ -240,6 +274,18 @@ def scenario(run, rng, pv, idx):
                 config[lst_name].append((lid, types, ()))
                 relays.append((lid, lst_name))
         register_batch(6)
+        if leaver:
+            lid_counter[0] += 1
+            leaver_lid = lid_counter[0]
+
+            def leave(packet):
+                note('cb.listener', packet, 'in', lid=leaver_lid)
+                if packet.keep_alive_id == 9999:
+                    conn.disconnect()
+            conn.register_packet_listener(leave, cb.play.KeepAlivePacket,
+                                          early=True)
+            config['early_in'].append((leaver_lid, (cb.play.KeepAlivePacket,),
+                                       ()))
         w['config'] = {k: [(l, [t.__name__ for t in ts], list(ig))
                            for l, ts, ig in v] for k, v in config.items()}
 
@@ -278,6 +324,10 @@ def scenario(run, rng, pv, idx):
                         break
             return seq, True
         # how many plugin answers will actually be written
+        # (an earlier early listener that ignores keep-alives, or one that is
+        # registered later and does, keeps the packet from the leaver)
+        state['leaver_active'] = leaver and not late and leaver_lid in \
+            predict_in(cb.play.KeepAlivePacket)[0]
         answered = predict_in(cb.login.PluginRequestPacket)[1]
         answer_written = predict_out(sb.login.PluginResponsePacket)[1]
         state['plugin_answers_expected'] = n_plugin if (
@@ -391,7 +441,8 @@ def scenario(run, rng, pv, idx):
             cb.login.PluginRequestPacket, cb.login.SetCompressionPacket,
             cb.login.LoginSuccessPacket, cb.play.TimeUpdatePacket,
             cb.play.DisconnectPacket, cb.play.EndCombatEventPacket,
-            cb.play.EnterCombatEventPacket)}
+            cb.play.EnterCombatEventPacket, cb.play.PlayerListItemPacket,
+            cb.play.ExplosionPacket)}
         out_cls = {c.__name__: c for c in (
             sb.play.KeepAlivePacket, sb.play.ChatPacket, MyChat,
             sb.login.PluginResponsePacket, sb.handshake.HandShakePacket,
@@ -421,8 +472,43 @@ def scenario(run, rng, pv, idx):
                     dict(w, packet=name, got=calls, expected=exp,
                          after_late_registration=cfg_now is config))
                 return None
-        # every incoming packet must have been dispatched at all (reaction or
-        # a listener) unless nothing was predicted for it
+        # every incoming packet must have been dispatched at all: the built-in
+        # reaction wrapper sees every packet that is not ignored early
+        kind_cls = {'ka': 'KeepAlivePacket', 'chat': 'ChatMessagePacket',
+                    'unknown': 'Packet', 'plist-empty': 'PlayerListItemPacket',
+                    'explosion-empty': 'ExplosionPacket',
+                    'combat-end': 'EndCombatEventPacket',
+                    'combat-enter': 'EnterCombatEventPacket'}
+        sent_by_cls = {}
+        for k_ in play_hist + (play_hist2 if late else []):
+            c_ = kind_cls[k_]
+            sent_by_cls[c_] = sent_by_cls.get(c_, 0) + 1
+        sent_by_cls['Packet'] = sent_by_cls.get('Packet', 0) + (2 if late
+                                                                else 1)
+        if state.get('leaver_active'):
+            run.count('scenarios_where_an_early_listener_disconnects')
+            sent_by_cls['KeepAlivePacket'] = sent_by_cls.get(
+                'KeepAlivePacket', 0) + 1
+        seen_by_cls = {}
+        for key in order:
+            e_ = per_pkt[key]
+            if e_['dir'] == 'in':
+                seen_by_cls[e_['cls']] = seen_by_cls.get(e_['cls'], 0) + 1
+        for c_, n_ in sorted(sent_by_cls.items()):
+            K_ = in_cls.get(c_)
+            if K_ is None:
+                continue
+            # a packet leaves a trace unless no listener matches it *and* ...
+            # no: the reaction wrapper logs every packet not ignored early, and
+            # an early ignore is itself a logged listener call
+            run.count('incoming_accounted', n_)
+            if seen_by_cls.get(c_, 0) != n_:
+                run.violation('listeners/incoming-not-dispatched', 'a packet '
+                              'the server sent (and the client read) never '
+                              'reached the listeners or the built-in reaction',
+                              dict(w, packet=c_, sent=n_,
+                                   dispatched=seen_by_cls.get(c_, 0)))
+                return None
         # ---- wire: suppression ------------------------------------------------
         def ka_echoed(cfg):
             return predict_in(cb.play.KeepAlivePacket, cfg)[1] and \
@@ -588,4 +674,5 @@ def run(run):
     run.require('dispatched.in', 30)
     run.require('scenarios_with_late_registration', 5)
     run.require('nested_writes_from_listeners', 5)
+    run.require('scenarios_where_an_early_listener_disconnects', 5)
     run.require('combat_subclass_packets', 5)
